@@ -186,6 +186,18 @@ PROPS["C15"] = {
     "assumptions": [TIME_RANGE],
 }
 
+PROPS["C12"] = {
+    "harnesses": [
+        {"pkg": "sqlite", "dir": "sqlite", "entry": "VerifH_C12_changes", "extra": [("s3db_export", ".")], "no_native": True,
+         "quick": {"params": "steps=3,faults=0", "workers": 16, "timeout": 1800},
+         "thorough": {"params": "steps=3,faults=1", "workers": 16, "timeout": 7200}},
+    ],
+    "bounds": {"quick": "single writer, 3 committed single-statement transactions over keys {1,2} from {insert, update, delete} with symbolic increasing write times; every ordered pair of the 3 versions; the ChangesTable/ChangesCursor protocol (Open, Filter, Eof, Column, Next) against the rows recorded when each version was taken",
+               "thorough": "plus one symbolic storage fault (single or persistent) while the diff runs"},
+    "outside": "argument parsing of CREATE VIRTUAL TABLE ... USING s3db_changes (C20 family); merges of two writers inside a diffed version",
+    "assumptions": [TIME_RANGE, "engine-only: harnesses of package sqlite cannot be replayed natively (a sqlite.Value only exists inside a running SQLite); counterexamples are reported without native confirmation"],
+}
+
 # Properties not (yet) claimed, each with the reason.  Kept current by hand.
 NOT_APPLICABLE = {
     "C%02d" % i: "check not built yet in this session (breadth-first build order, DESIGN §9); no claim is made" for i in range(1, 21)
